@@ -77,3 +77,35 @@ void h_s5_b_to_znx128_boundary(void) {
   }
   VACUITY_CANARY();
 }
+
+// ---- q120x2 block extract / save (q120_arithmetic_ref.c): mutually inverse copies of 8 words, all nn and block indices
+void q120x2_extract_1blk_from_q120b_ref(uint64_t nn, uint64_t blk, q120x2b* const dst, const q120b* const src);
+void q120x2b_save_1blk_to_q120b_ref(uint64_t nn, uint64_t blk, q120b* dest, const q120x2b* src);
+void q120x2_extract_1blk_from_contiguous_q120b_ref(uint64_t nn, uint64_t nrows, uint64_t blk, q120x2b* const dst, const q120b* const src);
+#ifndef XN
+#define XN 8   /* concrete dimension of the backing arrays (blk symbolic below XN/2) */
+#endif
+void h_s4_q120x2_blocks(void) {
+  static uint64_t src[4 * XN], dst[8], back[4 * XN], back0[4 * XN];
+  for (int i = 0; i < 4 * XN; ++i) { src[i] = nondet_u64(); back0[i] = back[i] = nondet_u64(); }
+  uint64_t blk = nondet_u64(); __CPROVER_assume(blk < XN / 2);
+  q120x2_extract_1blk_from_q120b_ref(XN, blk, (q120x2b*)dst, (const q120b*)src);
+  uint64_t k = nondet_u64(); __CPROVER_assume(k < 8);
+  __CPROVER_assert(dst[k] == src[8 * blk + k], "q120x2 extract: block blk = the two q120 coefficients 2blk, 2blk+1 (8 words)");
+  q120x2b_save_1blk_to_q120b_ref(XN, blk, (q120b*)back, (const q120x2b*)dst);
+  uint64_t o = nondet_u64(); __CPROVER_assume(o < 4 * XN);
+  __CPROVER_assert(back[8 * blk + k] == src[8 * blk + k], "q120x2 save after extract restores the block (mutually inverse)");
+  __CPROVER_assert((8 * blk <= o && o < 8 * blk + 8) || back[o] == back0[o], "q120x2 save writes only the 8 words of the block");
+  VACUITY_CANARY();
+}
+void h_s4_q120x2_contiguous(void) {
+  static uint64_t src[3 * 4 * XN], dst[3 * 8 + 1];
+  for (int i = 0; i < 3 * 4 * XN; ++i) src[i] = nondet_u64();
+  uint64_t guard = dst[24];
+  uint64_t blk = nondet_u64(); __CPROVER_assume(blk < XN / 2);
+  q120x2_extract_1blk_from_contiguous_q120b_ref(XN, 3, blk, (q120x2b*)dst, (const q120b*)src);
+  uint64_t r = nondet_u64(), k = nondet_u64(); __CPROVER_assume(r < 3 && k < 8);
+  __CPROVER_assert(dst[8 * r + k] == src[r * 4 * XN + 8 * blk + k], "q120x2 contiguous extract: row r block blk");
+  __CPROVER_assert(dst[24] == guard, "q120x2 contiguous extract: nothing written past 8*nrows words");
+  VACUITY_CANARY();
+}
